@@ -4,6 +4,9 @@ import (
 	"fmt"
 	"go/constant"
 	"go/token"
+	"go/types"
+	"sort"
+	"strings"
 
 	"golang.org/x/tools/go/ssa"
 
@@ -250,7 +253,13 @@ func c08(p *model.Prog, r *report.Result) {
 	r.Check(okW, "C08.R3", fkey(calc, "csid", "writer-forms"), p.Pos(calc.Pos()), "writer boundaries {2,63,64,319}, base 64", fmt.Sprintf("writer csid boundaries %v / base %v differ from the 1-, 2- and 3-byte forms", keysOf(bounds), keysOf(subBase)))
 	addBase := map[int64]int{}
 	mul256 := false
-	model.EachInstr(runLoop, func(in ssa.Instruction) {
+	readerGroup := model.StaticGroup(runLoop, 2)
+	eachReader := func(f func(ssa.Instruction)) {
+		for _, g := range readerGroup {
+			model.EachInstr(g, f)
+		}
+	}
+	eachReader(func(in ssa.Instruction) {
 		if b, ok := in.(*ssa.BinOp); ok {
 			if b.Op == token.ADD {
 				if k, isK := model.ConstInt(b.X); isK {
@@ -278,8 +287,15 @@ func c08(p *model.Prog, r *report.Result) {
 		}
 		return false
 	}
+	// writer side by paths: constant propagation over calcHeader gives, on every path, the absolute
+	// position of each header write; positions are taken relative to the time stamp write of the
+	// same path (the start of the message header), whatever the shape of the branches
+	wpaths := c08WriterPaths(p, calc)
 	for _, f := range []string{"MsgLen", "MsgTypeId", "MsgStreamId"} {
-		w, rd := layoutSet(wl, f, nil), layoutSet(rl, f, isBootstrap)
+		w, rd := wpaths[f], layoutSet(rl, f, isBootstrap)
+		if w == "" {
+			w = layoutSet(wl, f, nil)
+		}
 		r.Check(w != "" && w == rd, "C08.R4", fkey(calc, "layout", f), p.Pos(calc.Pos()), "writer "+w+" == reader "+rd, "field "+f+" is written at "+w+" but read at "+rd)
 	}
 	wts := layoutSet(wl, "timestamp", nil)
@@ -288,9 +304,11 @@ func c08(p *model.Prog, r *report.Result) {
 	// the number of header bytes the reader consumes per format equals what the writer emits: 11/7/3
 	sizes := map[int64]bool{}
 	readAtLeast := p.FuncObj("io", "ReadAtLeast")
-	for _, ci := range model.CallsTo(runLoop, readAtLeast) {
-		if k, ok := model.ConstInt(ci.Common().Args[2]); ok {
-			sizes[k] = true
+	for _, g := range readerGroup {
+		for _, ci := range model.CallsTo(g, readAtLeast) {
+			if k, ok := model.ConstInt(ci.Common().Args[2]); ok {
+				sizes[k] = true
+			}
 		}
 	}
 	r.Check(sizes[11] && sizes[7] && sizes[3] && sizes[4], "C08.R4", fkey(runLoop, "layout", "header-sizes"), p.Pos(runLoop.Pos()), "reader consumes 11/7/3 header bytes and 4 extended bytes", "the reader's per-format header sizes differ from 11/7/3(+4)")
@@ -426,7 +444,7 @@ func c08r56(p *model.Prog, r *report.Result, calc, runLoop *ssa.Function) {
 		if !ok || op != token.EQL || k != 0 || !pol {
 			return false
 		}
-		return model.DependsOn(x, func(v ssa.Value) bool {
+		return model.DependsOnDeep(x, func(v ssa.Value) bool {
 			b, ok := v.(*ssa.BinOp)
 			if !ok || b.Op != token.SHR {
 				return false
@@ -548,6 +566,96 @@ func keysOf(m map[int64]bool) []int64 {
 	var out []int64
 	for k := range m {
 		out = append(out, k)
+	}
+	return out
+}
+
+// c08WriterPaths: for each message-header field the set of (offset relative to the time stamp
+// write, width, byte order) over all paths of calcHeader, formatted like layoutSet.
+func c08WriterPaths(p *model.Prog, calc *ssa.Function) map[string]string {
+	msgLenF := p.Field("pkg/base", "RtmpHeader", "MsgLen")
+	typeF := p.Field("pkg/base", "RtmpHeader", "MsgTypeId")
+	msidF := p.Field("pkg/base", "RtmpHeader", "MsgStreamId")
+	dep := func(v ssa.Value, f *types.Var) bool {
+		return model.DependsOn(v, func(x ssa.Value) bool { return model.LoadedField(x) == f })
+	}
+	ev := &cEval{fn: calc, maxPaths: 20000,
+		observe: func(in ssa.Instruction, val func(ssa.Value) (int64, bool)) string {
+			switch x := in.(type) {
+			case ssa.CallInstruction:
+				put, w, e, ok := beleInfo(model.CalleeObj(x.Common()))
+				if !ok || !put {
+					return ""
+				}
+				sl, isSl := x.Common().Args[0].(*ssa.Slice)
+				if !isSl || sl.Low == nil {
+					return ""
+				}
+				off, known := val(sl.Low)
+				if !known {
+					return ""
+				}
+				name := "ts"
+				switch {
+				case dep(x.Common().Args[1], msgLenF):
+					name = "MsgLen"
+				case dep(x.Common().Args[1], msidF):
+					name = "MsgStreamId"
+				case w == 4:
+					name = "ext"
+				}
+				return fmt.Sprintf("%s %d %d %s", name, off, w, e)
+			case *ssa.Store:
+				ia, ok := x.Addr.(*ssa.IndexAddr)
+				if !ok || !dep(x.Val, typeF) {
+					return ""
+				}
+				if off, known := val(ia.Index); known {
+					return fmt.Sprintf("MsgTypeId %d 1 ", off)
+				}
+			}
+			return ""
+		}}
+	ev.run()
+	out := map[string]string{}
+	if ev.undecided != "" {
+		return out
+	}
+	sets := map[string]map[string]bool{}
+	for _, pa := range ev.paths {
+		base := int64(-1)
+		for _, e := range pa.events {
+			var name, en string
+			var off, w int64
+			fmt.Sscanf(e, "%s %d %d %s", &name, &off, &w, &en)
+			if name == "ts" && base < 0 {
+				base = off
+			}
+		}
+		for _, e := range pa.events {
+			var name, en string
+			var off, w int64
+			n, _ := fmt.Sscanf(e, "%s %d %d %s", &name, &off, &w, &en)
+			if n < 3 || name == "ts" || name == "ext" {
+				continue
+			}
+			if sets[name] == nil {
+				sets[name] = map[string]bool{}
+			}
+			if base < 0 {
+				sets[name]["no time stamp before it"] = true
+				continue
+			}
+			sets[name][fmt.Sprintf("@%d/%d%s", off-base, w, en)] = true
+		}
+	}
+	for name, set := range sets {
+		var ks []string
+		for k := range set {
+			ks = append(ks, k)
+		}
+		sort.Strings(ks)
+		out[name] = strings.Join(ks, ",")
 	}
 	return out
 }
